@@ -267,13 +267,23 @@ macro "vf_fsimp" "[" ts:Lean.Parser.Tactic.simpLemma,* "]" : tactic => `(tactic|
   simp [fstep, St.upd, St.put, St.put2, St.sz, baseOf, tvOf, t0Of, emplaceAt,
     valueC, copyC, moveC, copyA, moveA, destroyAt, constructAt, assignAt, srcVal, srcMoved, Mem.get, Mem.set,
     bumpVc, bumpCc, bumpMc, bumpCa, bumpMa, bumpD, fnDestroyCur, fnRelocate, fnCopy, fnFromCallable,
-    fnCopyConstruct, fnMoveConstruct, fnAssignParam, fnAssignFrom, fnAssignCallable, fnReset, fnSwap, fnInvoke,
+    fnCopyConstruct, fnMoveConstruct, fnAssignParam, fnAssignFrom, fnAssignCallable, fnFromOtherCap, fnReset, fnSwap, fnInvoke,
     useAt, fnInv6, fok, $ts,*])
 
 theorem f_callable (k : Kind) (x0 x1 : Slot) (c : Cnt) (a b : Nat) (t : Bool)
     (hA : fok x0 a) (hB : fok x1 b)
     (hbal : c.vc + c.cc + c.mc = c.d + (lv x0 + lv x1)) (asg mv : Bool) (j v : Nat) :
     ∃ s', fstep k ⟨⟨[x0, x1, .dead, .dead, .dead, .dead], c⟩, a, b⟩ t (if asg then (if mv then .assignMove j v else .assignCopy j v) else (if mv then .ctorMove j v else .ctorCopy j v)) = .ok s' ∧ FnInv s' := by
+  rcases fok_cases hA with ⟨rfl, rfl⟩ | ⟨a, v0, rfl, rfl⟩ <;>
+  rcases fok_cases hB with ⟨rfl, rfl⟩ | ⟨b, v1, rfl, rfl⟩ <;>
+  cases t <;> cases asg <;> cases mv <;>
+  cases k <;> simp only [lv_live, lv_dead] at hbal <;> vf_fsimp [] <;> omega
+
+/-- construction / assignment from a local function object of another capacity -/
+theorem f_conv (k : Kind) (x0 x1 : Slot) (c : Cnt) (a b : Nat) (t : Bool)
+    (hA : fok x0 a) (hB : fok x1 b)
+    (hbal : c.vc + c.cc + c.mc = c.d + (lv x0 + lv x1)) (asg mv : Bool) (j v : Nat) :
+    ∃ s', fstep k ⟨⟨[x0, x1, .dead, .dead, .dead, .dead], c⟩, a, b⟩ t (.conv asg mv j v) = .ok s' ∧ FnInv s' := by
   rcases fok_cases hA with ⟨rfl, rfl⟩ | ⟨a, v0, rfl, rfl⟩ <;>
   rcases fok_cases hB with ⟨rfl, rfl⟩ | ⟨b, v1, rfl, rfl⟩ <;>
   cases t <;> cases asg <;> cases mv <;>
@@ -459,6 +469,7 @@ theorem fstep_inv (k : Kind) (s : St) (t : Bool) (op : FOp) (hi : FnInv s) (hv :
   | swap => exact f_swap k x0 x1 c a b t hA hB hbal
   | swapSelf => exact ⟨_, by cases t <;> simp [fstep, fnSwap, St.put, St.sz], hi⟩
   | invoke => exact f_invoke k x0 x1 c a b t hA hB hbal hv
+  | conv asg mv j v => exact f_conv k x0 x1 c a b t hA hB hbal asg mv j v
 
 theorem freach_inv {k : Kind} {s : St} (h : FReach k s) : FnInv s := by
   induction h with
